@@ -200,9 +200,28 @@ PROPS = {
              COMMON_ASSUME + ["within one flow the correlation requirement and each node's metadata are constant (the statement's preconditions)",
                               "that an uncorrelated flow is retried exactly MaxRetries times is not in the statement and is not asserted"],
              "runtime monitor: correlation state-machine model + field-merge accept-sets, checked at every scan and after every record; bounded-exhaustive words"),
+    "C13": P(True, (16, 16), 16, (1800, 7200), 1500, 500, "exploration",
+             "three workloads on a real AggregationProcess under the race detector. lin (one evaluation = one short concurrent history): "
+             "producers - exactly one goroutine per (flow, reporting node) stream, end times increasing in program order -, 1-2 scanners with "
+             "an export-and-reset callback, 1-2 readers (GetRecords, GetNumFlows, GetExpiry), one time-shift goroutine, over 1-3 flows "
+             "(correlated and single-stream), every ingested delta a distinct power of two; every call is recorded at the boundary (call / "
+             "return timestamps from one monotonic clock) and the history, closed by quiescent reads of the final state, is checked with "
+             "porcupine against a sequential model of the process (delta sums per node, readiness, retries, deadlines in virtual minutes, "
+             "export resets). stress: 1..16 producers x 600-2000 ingests per flow over 8 single-stream flows with a concurrent scanner "
+             "(export + reset), query loop and time-shift loop, GOMAXPROCS in {1,2,4,16}: per flow sum(ingested) == sum(exported) + held, no "
+             "flow twice in one scan, exports <= deadlines passed, both slots of a single-stream flow equal. pool: Start with 1..16 workers "
+             "fed 50..450 inter-node flows (one source and one destination record each, shuffled) through the channel, Stop, then key set, "
+             "correlation, delta sums, merged names and end time compared with the sequential result. Non-trivial = >= 2 operations "
+             "overlapping in time on one key (lin) / exports happened (stress) / run completed (pool); distinct by the (call, return) order.",
+             COMMON_ASSUME + ["each (flow, node) stream has one producer: the aggregation contract (per-node end times increase) must hold in every linearization",
+                              "porcupine Unknown (60 s timeout) is inconclusive"],
+             "porcupine linearizability check of recorded histories against a sequential model + conservation checker at quiescence; race detector; GOMAXPROCS sweep"),
 }
 
 LEVEL_TEXT = {
+    "C13": "Held on every recorded history (linearizable), every stress run (conservation) and every pool run explored. Interleavings are "
+           "sampled; unique power-of-two deltas make each read and each export identify exactly the ingests it contains, so a lost or "
+           "double-counted update cannot hide.",
     "C07": "Held on every arrival order and multiplicity of source/destination records up to the stated length, for every flow type and "
            "rule-action pair, with expiry scans at every position.",
     "C06": "Held on every history explored: every combination of arrivals, time advances and failing callbacks to the stated depth over "
